@@ -59,3 +59,11 @@ func VerifC40SignInactivityClaim(
 ) (*inactivity.SignedClaimHash, error) {
 	return newInactivityClaimSigner(chain).SignClaim(claim)
 }
+
+// VerifC40VerifyInactivityClaimSignature runs inactivityClaimSigner.VerifySignature.
+func VerifC40VerifyInactivityClaimSignature(
+	chain Chain,
+	signedClaim *inactivity.SignedClaimHash,
+) (bool, error) {
+	return newInactivityClaimSigner(chain).VerifySignature(signedClaim)
+}
